@@ -123,6 +123,52 @@ u.extract(CV, 'fn calc_single', key='finalize_int',
                                             signed: if bit_width == 0 { true } else { signed } }),
 ''')
 
+# ---- the writer of the FINAL_TYS table: convert::calc_single as a whole ------------------------
+u.raw("""
+impl Ty {
+    // ASSUMED (Ty::is_zero_sized is not under contract): scalars are never zero-sized
+    #[verifier::external_body]
+    pub fn is_zero_sized(&self) -> (r: bool)
+        ensures r == ty_zero_sized(*self),
+            (*self is IInt || *self is UInt || *self is Float || *self is Bool || *self is Char) ==> !r
+    { unimplemented!() }
+}
+// the recursive calls of calc_single (they fill in the entries of the component types); the
+// entry written by THIS call does not depend on them except through table reads
+#[verifier::external_body]
+pub fn calc_single_sub(ty: Intern<Ty>, ptr_ty: types::Type) { unimplemented!() }
+#[verifier::external_body]
+pub fn proved_unreachable<T>() -> (r: T) requires false { unimplemented!() }
+""")
+F_LOCK_REF = Rewrite('R4', r'let finals = FINAL_TYS\.lock\(\)\.unwrap\(\);\s*let finals = finals\.get\(\)\.unwrap\(\);', 'let finals = finals_ref();', count=1,
+                     why='global table access idiom -> shim accessor (assumptions F1-F3 of shims/verus/final_tables.rs)')
+F_LOCK_MUT = Rewrite('R4', r'let mut finals = FINAL_TYS\.lock\(\)\.unwrap\(\);\s*let finals = finals\.get_mut\(\)\.unwrap\(\);', 'let mut finals = finals_mut();', count=1,
+                     why='global table access idiom -> shim accessor')
+F_NOCLOSURE = Rewrite('R5', r'let finalize_int = \|bit_width: u8, signed: bool\| -> FinalTy \{[\s\S]*?\n    \};\n', '', count=1,
+                      why='definition of the closure `finalize_int` removed: it is verified as function finalize_int above (its captured ptr_ty is a parameter there)')
+F_CALLS = Rewrite('R5', r'finalize_int\(', 'finalize_int(ptr_ty, ', count=None, why='calls of the hoisted closure pass its captured variable')
+F_REC = Rewrite('R5', r'(?<!fn )calc_single\(', 'calc_single_sub(', count=None,
+                why='recursive calls (entries of the component types) go through a stub: the entry written by this call is what is under contract')
+F_UNREACH = Rewrite('R6', r'unreachable!\([^)]*\)', 'proved_unreachable()', count=None, why='`unreachable!` -> a call whose precondition is `false`: PROVED unreachable')
+u.extract(CV, 'fn calc_single', rewrites=[F_LOCK_REF, F_LOCK_MUT, F_NOCLOSURE, F_CALLS, F_REC, F_UNREACH],
+          desugar_for={0: ('pi', 'ref'), 1: ('mi', 'ref'), 2: ('vi', 'ref')},
+          contract="""
+    requires
+        ptr_ty == ptr_ty_spec(),
+        // domain: the widths the language has, and no type that never reaches codegen
+        *ty.0 is IInt || *ty.0 is UInt ==> { let w = if *ty.0 is IInt { ty.0->IInt_0 } else { ty.0->UInt_0 };
+            w == 0 || w == 8 || w == 16 || w == 32 || w == 64 || w == 128 || w == 255 },
+        *ty.0 is Float ==> ty.0->Float_0 == 0 || ty.0->Float_0 == 32 || ty.0->Float_0 == 64,
+        !(*ty.0 is NaivePolymorphicFunction),
+    ensures
+        // every entry the table gets satisfies the write precondition final_ok (shim: insert
+        // REQUIRES it), in particular: char and bool are unsigned bytes, `{uint}` is an i32
+        final_ok(*ty.0, tfinal(*ty.0)),
+""", ret=None,
+          loops={0: 'invariant 0 <= pi <= it_pi@.len(), decreases it_pi@.len() - pi',
+                 1: 'invariant 0 <= mi <= it_mi@.len(), decreases it_mi@.len() - mi',
+                 2: 'invariant 0 <= vi <= it_vi@.len(), decreases it_vi@.len() - vi'})
+
 u.extract(T, 'impl Ty::fn get_max_int_size', wrap=('impl Ty {', '}'), contract='''
     ensures
         // C09: "an integer literal used at an integer type is accepted if and only if its value
@@ -164,10 +210,18 @@ def find_witness(unit, ob, repo, scratch):
 # which property each function under contract carries (a failure is reported under it)
 u.fn_props = {
     'bit_width': ['C08'], 'into_number_type': ['C08'], 'cast_num': ['C08'], 'cast_ty_to_cranelift': ['C08'],
-    'compile_num_binary': ['C08'], 'finalize_int': ['C08', 'C09'], 'get_max_int_size': ['C09'],
+    'compile_num_binary': ['C08'], 'finalize_int': ['C08', 'C09'], 'calc_single': ['C08'], 'get_max_int_size': ['C09'],
 }
 
 MUTANTS = [
+    (CV, '''        Ty::Bool | Ty::Char => FinalTy::Number(NumberType {
+            ty: types::I8,
+            float: false,
+            signed: false,''', '''        Ty::Bool | Ty::Char => FinalTy::Number(NumberType {
+            ty: types::I8,
+            float: false,
+            signed: true,''', 'violation'),
+    (CV, 'Ty::UInt(bit_width) => finalize_int(*bit_width, false),', 'Ty::UInt(bit_width) => finalize_int(*bit_width, true),', 'violation'),
     # the four defects repaired by "fix:" commits in /repo, re-introduced
     (M, 'std::cmp::Ordering::Less if cast_from.signed => {', 'std::cmp::Ordering::Less if cast_from.signed && cast_to.signed => {', 'violation'),
     (M, 'std::cmp::Ordering::Greater if cast_from.bit_width() == 64 => val,', 'std::cmp::Ordering::Greater if cast_from.bit_width() == 64 => builder.ins().ireduce(int_to, val),', 'violation'),
